@@ -180,13 +180,15 @@ def catalogue():
     KMeans, SS = g["KMeans"], g["StandardScaler"]
     C = {}
 
-    def add(name, kind, variants, fit=True, strs=None, skip=(), prefix=None):
+    def add(name, kind, variants, fit=True, strs=None, skip=(), prefix=None, given=None):
         C[name] = {"kind": kind, "variants": variants, "fit": fit, "strs": strs or {}, "skip": set(skip),
-                   "prefix": prefix or {}}
+                   "prefix": prefix or {}, "given": given or {}}
 
     add("QuantileLinearRegression", "reg", {
         "A": lambda: M.QuantileLinearRegression(quantile=0.3, max_iter=30),
         "B": lambda: M.QuantileLinearRegression(quantile=0.7, fit_intercept=False, delta=0.001, max_iter=20)})
+    C["QuantileLinearRegression"]["given"] = {"A": dict(quantile=0.3, max_iter=30),
+                                             "B": dict(quantile=0.7, fit_intercept=False, delta=0.001, max_iter=20)}
     add("KMeansL1L2", "cluster", {
         "A": lambda: M.KMeansL1L2(n_clusters=2, norm="L1", random_state=0, n_init=2),
         "B": lambda: M.KMeansL1L2(n_clusters=3, norm="L2", random_state=1, n_init=1, init="random")},
@@ -267,17 +269,22 @@ def catalogue():
         "A": lambda: S.SkBaseTransformLearner(LinR(), "predict"),
         "B": lambda: S.SkBaseTransformLearner(LogR(), "predict_proba"),
         "C": lambda: S.SkBaseTransformLearner(SS(), "transform"),
-        "D": lambda: S.SkBaseTransformLearner(DTC(max_depth=2))},
-        strs={"method": ["predict"]})
+        "D": lambda: S.SkBaseTransformLearner(DTC(max_depth=2)),
+        "E": lambda: S.SkBaseTransformLearner(LinR(), "predict", tag="t", level=2, ratio=0.5, on=True)},
+        strs={"method": ["predict"]}, given={"E": dict(tag="t", level=2, ratio=0.5, on=True, method="predict")})
     add("SkBaseTransformStacking", "clf", {
         "A": lambda: S.SkBaseTransformStacking([LinR(), DTR(max_depth=2)], "predict"),
         "B": lambda: S.SkBaseTransformStacking([LogR(), DTC(max_depth=2)], "predict_proba"),
-        "C": lambda: S.SkBaseTransformStacking([LinR(fit_intercept=bool(i % 2)) for i in range(11)], "predict")},
-        strs={"method": ["predict"]})
+        "C": lambda: S.SkBaseTransformStacking([LinR(fit_intercept=bool(i % 2)) for i in range(11)], "predict"),
+        "D": lambda: S.SkBaseTransformStacking([LinR(), DTR(max_depth=1)], "predict", tag="t", level=2)},
+        strs={"method": ["predict"]}, given={"D": dict(tag="t", level=2, method="predict")})
     for nm in ("SkBaseLearner", "SkBaseRegressor", "SkBaseClassifier"):
+        kwA = dict(alpha=1, name="x", beta=0.5, flag=True, size=3)
+        kwB = dict(alpha=2, name="y", beta=1.5, flag=False, size=4)
         add(nm, "reg", {
-            "A": (lambda nm=nm: getattr(S, nm)(alpha=1, name="x")),
-            "B": (lambda nm=nm: getattr(S, nm)(alpha=2, name="y"))}, fit=False, strs={"name": ["x", "y", "z"]})
+            "A": (lambda nm=nm, kw=kwA: getattr(S, nm)(**kw)),
+            "B": (lambda nm=nm, kw=kwB: getattr(S, nm)(**kw))}, fit=False, strs={"name": ["x", "y", "z"]},
+            given={"A": kwA, "B": kwB})
     add("ARTimeSeriesRegressor", "ts", {
         "A": lambda: g["ARTimeSeriesRegressor"]("dummy", past=2),
         "B": lambda: g["ARTimeSeriesRegressor"]("dummy", past=3, delay2=3)}, fit=False,
